@@ -72,7 +72,7 @@ class Workspace:
 
     # ------------------------------------------------------------------ running the CLI
 
-    def run(self, force=False, config='config.yml', timeout=120):
+    def run(self, force=False, config='config.yml', timeout=120, audit_log=None):
         """Returns ('ok',) | ('error', exception class, message). The child is a fork of this process."""
         import rogw.tranp.bin.transpile as cli   # imported in the parent once; the child only constructs objects
         r, w = os.pipe()
@@ -87,6 +87,16 @@ class Workspace:
                 devnull = os.open(os.devnull, os.O_WRONLY)
                 os.dup2(devnull, 1)
                 os.dup2(devnull, 2)
+                if audit_log:
+                    cache_base = os.path.join(os.path.realpath(self.root), '.cache')
+                    log_fd = os.open(audit_log, os.O_WRONLY | os.O_CREAT | os.O_APPEND)
+
+                    def hook(event, args):
+                        if event == 'open' and args and isinstance(args[0], str):
+                            p = os.path.realpath(args[0])
+                            if p.startswith(cache_base):
+                                os.write(log_fd, (os.path.relpath(p, os.path.realpath(self.root)) + '\n').encode())
+                    sys.addaudithook(hook)
                 argv = ['-c', config] + (['-f'] if force else [])
                 try:
                     cli.App(cli.TranspileApp.definitions(cli.Args(argv))).run(cli.TranspileApp.run)
